@@ -78,8 +78,9 @@ type movingAverageETA struct {
 }
 
 func (d *movingAverageETA) Decor(s Statistics) (string, int) {
-	v := math.Round(d.average.Value())
-	remaining := time.Duration((s.Total - s.Current) * int64(v))
+	// round the product, not the average: a fast stream takes a fraction of
+	// a nanosecond per item, which would be lost before it is scaled up
+	remaining := time.Duration(math.Round(float64(s.Total-s.Current) * d.average.Value()))
 	if d.normalizer != nil {
 		remaining = d.normalizer.Normalize(remaining)
 	}
@@ -139,8 +140,7 @@ func (d *averageETA) Decor(s Statistics) (string, int) {
 	var remaining time.Duration
 	if s.Current != 0 {
 		durPerItem := float64(time.Since(d.start)) / float64(s.Current)
-		durPerItem = math.Round(durPerItem)
-		remaining = time.Duration((s.Total - s.Current) * int64(durPerItem))
+		remaining = time.Duration(math.Round(float64(s.Total-s.Current) * durPerItem))
 		if d.normalizer != nil {
 			remaining = d.normalizer.Normalize(remaining)
 		}
